@@ -354,6 +354,33 @@ def run(case, ctx):
                         'text after load/write cycle %d differs from the '
                         'first text:\n%s' % (i + 1, diff))
             break
+    # the same path held another constraint set of the same size a moment
+    # ago, and it was loaded then: what is loaded now is what the file says
+    decoy = '{"fields": {}}'
+    decoy += ' ' * max(0, len(t1.encode('utf-8')) - len(decoy))
+    with open(path, 'w', encoding='utf-8') as f:
+        f.write(decoy)
+    quiet(DatasetConstraints, loadpath=path)
+    quiet(verify_df, df.copy(), path, repair=False)
+    with open(path, 'w', encoding='utf-8') as f:
+        f.write(t1)
+    ok, Dr = quiet(DatasetConstraints, loadpath=path)
+    if ok:
+        ok, tr = quiet(Dr.to_json)
+        if ok and tr != t1:
+            out.violate('text-fixpoint', 'file-rewritten-in-place',
+                        'the file was rewritten in place and loaded again: '
+                        'serialises as %r, the file says %r'
+                        % (tr[:300], t1[:300]))
+    # the caller's dictionary is the caller's: loading it leaves it as it was
+    mine = copy.deepcopy(cons)
+    quiet(DatasetConstraints().initialize_from_dict, mine)
+    quiet(verify_df, df.copy(), mine, repair=False)
+    if json.dumps(mine, sort_keys=True, default=str) != json.dumps(
+            cons, sort_keys=True, default=str):
+        out.violate('dict-form-behaves-the-same', 'dictionary-modified',
+                    'a dictionary handed to initialize_from_dict / verify_df '
+                    'was changed: %r -> %r' % (cons, mine))
     # different path: everything but creation_metadata.tddafile
     path2 = os.path.join(d, 'moved.tdda')
     with open(path2, 'w', encoding='utf-8') as f:
